@@ -194,7 +194,7 @@ def run(check, an: Analysis):
             guard_bad = guard_bad or (path, at)
         for index, event in enumerate(events):
             if event.kind == 'call' and event.depth == 0 and isinstance(event.node, ast.Call) \
-                    and ast.unparse(event.node.func).split('.')[-1] == 'islice':
+                    and rules.text_at(path, event, event.node.func).split('.')[-1] == 'islice':
                 slice_n += 1
                 args = event.node.args
                 queue = rules.value_expr(path, index, args[0]) if args else None
